@@ -49,6 +49,16 @@ CLAIMED['C04'] = dict(
          'equal-priority conflicting controls at the same instant left open.',
     ref='DESIGN.md section 4, C04')
 
+CLAIMED['C01'] = dict(
+    engine='amlsmt+symx',
+    technique='the real model builder, ModelUpdater, expression evaluation, store_results_in_network and save_results executed on z3 proxies (value-container evaluator); SMT (z3 LRA/LIA) decides the node-balance identities and the requested-demand formula for all values',
+    text='For each template network x {DD, PDD} x leak placement and after each step of a leak/isolation rebuild history, the residual of every junction balance row equals '
+         'D - sum(inflows) + sum(outflows) + [leak] L with in/out taken from the links own end-node names, for ALL flows/demands/leak rates; the reported flowrate, demand and leak_demand '
+         'written by the real result code satisfy the node balance identically (junctions), tank and reservoir demand equal net inflow (minus leak); the requested demand parameter equals '
+         'sum base x pattern[((t + pattern_start)//dt) mod n] x multiplier for symbolic bases, multipliers, time and pattern_start.',
+    note='Trusted: z3; NewtonSolver converges only when max|residual| < tol (not encoded); RPN/C++ evaluation of the same expressions is C15; templates <= 6 nodes / 8 links; floats as reals.',
+    ref='DESIGN.md section 4, C01')
+
 NOT_APPLICABLE = {
     'C03': 'compares the numerical output of the closed EPANET shared library with a compiled Newton/SuperLU iteration; neither can be executed '
            'symbolically with the tools on this image and a contract standing in for EPANET would be the property itself (DESIGN.md section 5)',
